@@ -313,3 +313,22 @@ func VerifC05Wide() {
 	vrt.Assert(Class(err) == OK, "wide-function-runs")
 	vrt.Cover("done")
 }
+
+// VerifC05Cross: no pairing of operand classes crashes the interpreter (operands symbolic: zero
+// divisors, out-of-range indices and shift counts are models the solver must exclude).
+func VerifC05Cross() {
+	s := New()
+	g := NewGen(s)
+	a, b, op := g.Cross()
+	prog, used := Embed([...]int{0, 3, 2}[vrt.Choice("ctx", 3)], bin(op, a, b))
+	vrt.Note("program", Src(prog))
+	s.RunPre(g)
+	_, err := s.Run(prog, used)
+	c := Class(err)
+	vrt.Assert(c != EOther, "outcome-is-value-or-documented-error")
+	if c == OK {
+		vrt.Cover("value")
+	} else {
+		vrt.Cover("runtime-error")
+	}
+}
